@@ -458,6 +458,91 @@ pub fn cases(o: &mut Outcome, rng: &mut Rng, thorough: bool) {
     k.o.notes.push(format!("missed (c): {} fixture gaps in {:?}", take, t0.elapsed()));
 }
 
+/// `close_block`: the text between the last statement of a block and its closing brace.  Every gap of
+/// <= 3 (thorough 4) pieces x contexts x indentations x unindent_comment x configurations, plus random
+/// longer gaps; the Lean oracle `ms.oracle.close` on what the real code wrote.
+pub fn close_cases(o: &mut Outcome, rng: &mut Rng, thorough: bool) {
+    struct P {
+        text: String,
+        buffer: String,
+        indent: (usize, usize),
+        lo: usize,
+        hi: usize,
+        unindent: bool,
+        cfg: Cfg,
+        desc: &'static str,
+    }
+    let contexts: &[(&str, &str)] = &[("fn a() {\n    x;", "fn a() {\n    x;"), ("{", "{"), ("    if c {\n        y", "    if c {\n        y"), ("x; ", "a\n"), ("\u{e9}", "")];
+    let cfgs = [
+        BASE,
+        Cfg { ed2024: true, ..BASE },
+        Cfg { hard_tabs: true, ..BASE },
+        Cfg { max_width: 12, comment_width: 8, ..BASE },
+        Cfg { hard_tabs: true, tab_spaces: 0, ..BASE },
+        Cfg { tab_spaces: 2, ed2024: true, ..BASE },
+    ];
+    let mut pend: Vec<P> = vec![];
+    let gaps = gaps_upto(if thorough { 4 } else { 3 }, PIECES);
+    for (gi, g) in gaps.iter().enumerate() {
+        for (xi, (pre, buf)) in contexts.iter().enumerate() {
+            // short gaps under every configuration, longer ones under a rotating one
+            let all = g.chars().count() <= 14 && gi < 160;
+            for (ci, cfg) in cfgs.iter().enumerate() {
+                if !all && ci != (gi + xi) % cfgs.len() {
+                    continue;
+                }
+                for unindent in [false, true] {
+                    let ind = [(4usize, 0usize), (8, 0), (0, 0), (4, 2)][(gi + ci + unindent as usize) % 4];
+                    pend.push(P { text: format!("{}{}}}", pre, g), buffer: buf.to_string(), indent: ind, lo: pre.len(), hi: pre.len() + g.len(), unindent, cfg: *cfg, desc: "exhaustive" });
+                }
+            }
+        }
+    }
+    let all_pieces: Vec<&str> = PIECES.iter().chain(MORE.iter()).copied().collect();
+    for _ in 0..(if thorough { 40000 } else { 4000 }) {
+        let len = rng.range(2, 10);
+        let mut g = String::new();
+        for _ in 0..len {
+            let piece: &str = *rng.pick(&all_pieces);
+            g.push_str(piece);
+        }
+        let (pre, buf) = *rng.pick(contexts);
+        let cfg = Cfg { hard_tabs: rng.chance(1, 3), tab_spaces: *rng.pick(&[4usize, 4, 2, 8]), max_width: *rng.pick(&[100usize, 40, 12]), comment_width: *rng.pick(&[80usize, 20]), lower: 0, upper: 1, ed2024: rng.chance(1, 2) };
+        let ind = (*rng.pick(&[0usize, 4, 8, 16]), *rng.pick(&[0usize, 0, 3]));
+        pend.push(P { text: format!("{}{}}}", pre, g), buffer: buf.to_string(), indent: ind, lo: pre.len(), hi: pre.len() + g.len(), unindent: rng.chance(1, 2), cfg, desc: "random" });
+    }
+    // inverted and off-boundary spans
+    for text in ["{ \u{e9} }", "{/* \u{2028} */}"] {
+        for lo in 0..=text.len() + 1 {
+            for hi in 0..=text.len() + 1 {
+                pend.push(P { text: text.to_string(), buffer: "{".into(), indent: (4, 0), lo, hi, unindent: false, cfg: BASE, desc: "positions" });
+            }
+        }
+    }
+    let reals: Vec<Option<(String, usize, (usize, usize))>> = par_map(&pend, |p| guard(|| hm::close_block(&p.text, &p.buffer, p.indent, p.lo, p.hi, p.unindent, &mk_config(p.cfg))));
+    for (p, real) in pend.iter().zip(reals.into_iter()) {
+        let answer = match &real {
+            None => "panic".to_string(),
+            Some((b, ln, ind)) => format!("{}:{}:{}:{}", enc_str(b), ln, ind.0, ind.1),
+        };
+        if real.is_none() {
+            o.count("missed:close-panic");
+        }
+        let c = p.cfg;
+        let req = format!("ms.close {} {} {} {} {} {} {} {} {} {} {} {} {} {}", enc_str(&p.text), enc_str(&p.buffer), p.indent.0, p.indent.1, p.lo, p.hi, p.unindent as u8, c.hard_tabs as u8, c.tab_spaces, c.max_width, c.comment_width, c.lower, c.upper, c.ed2024 as u8);
+        let valid = p.lo <= p.hi && p.hi <= p.text.len() && p.text.is_char_boundary(p.lo) && p.text.is_char_boundary(p.hi);
+        let snippet = if valid { &p.text[p.lo..p.hi] } else { "" };
+        o.push("corr", "ms.close", req, answer, p.desc.into(), !snippet.trim().is_empty());
+        if let (true, Some((b, _, _))) = (valid, &real) {
+            if b.starts_with(&p.buffer) {
+                o.push("oracle", "ms.oracle.close", format!("ms.oracle.close {} {}", enc_str(snippet), enc_str(&b[p.buffer.len()..])), "ok".into(), p.desc.into(), !snippet.trim().is_empty());
+            } else {
+                o.direct_failures.push(serde_json::json!({"sig": "missed:close-buffer-not-extended", "detail": format!("{:?} {:?}", p.text, p.buffer)}));
+            }
+        }
+    }
+}
+
 /// Every maximal run of white space and non-doc/doc comments between two tokens of a fixture that holds a
 /// line break or a comment, with the (at most 60 bytes of) text in front of it; sorted, deduplicated.
 /// Gaps whose comments are outside the rewriter model (non-ASCII text) are left out.
@@ -548,6 +633,7 @@ pub fn run(tier: &str, seed: u64, out: &std::path::Path) -> i32 {
     let prev = std::panic::take_hook();
     std::panic::set_hook(Box::new(|_| {}));
     cases(&mut o, &mut rng, tier == "thorough");
+    close_cases(&mut o, &mut rng, tier == "thorough");
     probes(&mut o);
     std::panic::set_hook(prev);
     o.finish(out, jobs())
